@@ -15,7 +15,7 @@
 use std::collections::BTreeSet;
 
 use genvcf::{
-    FieldDef, FilterDef, GtAllele, HeaderDesc, HeaderOpts, IdxMode, Model, Num, RecDesc, RecOpts, Tol, Ty, Val, canon_first_phasing, diff_headers, diff_records, features, gen_header, gen_record,
+    FieldDef, FilterDef, GtAllele, HeaderDesc, HeaderOpts, IdxMode, Model, Num, RecDesc, RecOpts, Tol, Ty, Val, canon_first_phasing, diff_headers, diff_records, features, gen_header, gen_record, gen_rich_record, minimal_record,
     header_desc_of, header_from_text, io_err_class, rec_desc_of_buf, rec_desc_of_record, rec_from_line, series_of_record, span, to_noodles_header, to_record_buf, to_vcf_header, to_vcf_line,
 };
 use noodles_vcf as vcf;
@@ -296,8 +296,16 @@ fn genvcf_info_value(v: &Val) -> vcf::variant::record_buf::info::field::Value {
     to_record_buf(&r).info().as_ref().get_index(0).and_then(|(_, v)| v.clone()).expect("value")
 }
 
+/// An accepted record for the whole-file passes: the emitted line, the (canonical) description and the
+/// fresh eager decode of the line read alone.
+struct Accepted {
+    line: Vec<u8>,
+    exp: RecDesc,
+    fresh: RecDesc,
+}
+
 struct RecResult {
-    line: Option<Vec<u8>>,
+    line: Option<Accepted>,
 }
 
 fn check_record(hd: &HeaderDesc, header: &vcf::Header, rd: &RecDesc, out: &mut CaseOut) -> RecResult {
@@ -621,52 +629,108 @@ fn check_record(hd: &HeaderDesc, header: &vcf::Header, rd: &RecDesc, out: &mut C
     }
     out.count(&format!("records_fileformat[{}.{}]", ff.0, ff.1), 1);
     out.count(&format!("records_samples[{}]", match rd.samples.len() { 0 => "0", 1 => "1", 2..=3 => "2-3", _ => "4+" }), 1);
-    RecResult { line: if eager_desc.is_some() { Some(line) } else { None } }
+    RecResult { line: eager_desc.map(|fresh| Accepted { line, exp, fresh }) }
 }
 
-/// header text + accepted lines as one file through `read_header` / `record_bufs` / `records`.
-fn file_pass(header_text: &str, header: &vcf::Header, lines: &[Vec<u8>], out: &mut CaseOut) {
+/// header text + accepted lines as ONE file, read the way users do: one reader, one reused buffer,
+/// through every iteration API, plain and through BGZF. Every eagerly read record is compared with
+/// its description (minus what the fresh single-line decode already got wrong), every lazily read
+/// one with the fresh eager decode — so state left over from the previous record shows.
+fn file_pass(header_text: &str, recs: &[Accepted], ff: (u32, u32), out: &mut CaseOut) {
+    use std::io::Write as _;
     let mut file = header_text.as_bytes().to_vec();
-    for l in lines {
-        file.extend_from_slice(l);
+    for r in recs {
+        file.extend_from_slice(&r.line);
     }
-    let r = guard::catch(|| -> std::io::Result<(usize, usize, bool)> {
-        let mut rd = vcf::io::Reader::new(&file[..]);
-        let h = rd.read_header()?;
-        let mut n = 0;
-        let mut same = true;
-        for (i, rec) in rd.record_bufs(&h).enumerate() {
-            match rec {
-                Ok(rec) => {
-                    // the individually parsed line gives the same record
-                    if let Some(l) = lines.get(i) {
-                        let mut one = vcf::io::Reader::new(&l[..]);
-                        let mut b = vcf::variant::RecordBuf::default();
-                        if one.read_record_buf(header, &mut b).is_ok() && !diff_records(&rec_desc_of_buf(&b), &rec_desc_of_buf(&rec), &Tol::TEXT).is_empty() {
-                            same = false;
+    let bgzf_file = {
+        let mut w = noodles_bgzf::io::Writer::new(Vec::new());
+        let _ = w.write_all(&file);
+        w.finish().unwrap_or_default()
+    };
+    let canon = |mut r: RecDesc| -> RecDesc {
+        if ff < (4, 4) {
+            canon_first_phasing(&mut r);
+        }
+        r
+    };
+    let colkey = |d: &genvcf::FieldDiff| format!("{}|{}", d.column, d.key);
+    // what differs between description and fresh decode was reported per record already
+    let known: Vec<BTreeSet<String>> = recs.iter().map(|r| diff_records(&r.exp, &r.fresh, &Tol::TEXT).iter().map(colkey).collect()).collect();
+    let neighbour = |i: usize| -> String { if i == 0 { "(first record)".into() } else { format!("previous line: {}", lossy(&recs[i - 1].line)) } };
+
+    for transport in ["plain", "bgzf"] {
+        for api in ["read_record_buf", "record_bufs", "read_record", "records"] {
+            let res = guard::catch(|| -> std::io::Result<Vec<Result<RecDesc, String>>> {
+                let src: Box<dyn std::io::BufRead + '_> = if transport == "plain" { Box::new(&file[..]) } else { Box::new(noodles_bgzf::io::Reader::new(&bgzf_file[..])) };
+                let mut rd = vcf::io::Reader::new(src);
+                let h = rd.read_header()?;
+                let mut got: Vec<Result<RecDesc, String>> = Vec::new();
+                match api {
+                    "read_record_buf" => {
+                        let mut buf = vcf::variant::RecordBuf::default();
+                        while rd.read_record_buf(&h, &mut buf)? != 0 {
+                            got.push(Ok(rec_desc_of_buf(&buf)));
                         }
                     }
-                    n += 1;
+                    "record_bufs" => {
+                        for r in rd.record_bufs(&h) {
+                            got.push(Ok(rec_desc_of_buf(&r?)));
+                        }
+                    }
+                    "read_record" => {
+                        let mut rec = vcf::Record::default();
+                        while rd.read_record(&mut rec)? != 0 {
+                            got.push(rec_desc_of_record(&h, &rec).map_err(|e| io_err_class(&e)));
+                        }
+                    }
+                    _ => {
+                        for r in rd.records() {
+                            got.push(rec_desc_of_record(&h, &r?).map_err(|e| io_err_class(&e)));
+                        }
+                    }
                 }
-                Err(_) => return Ok((n, 0, same)), // individual lines already reported
+                Ok(got)
+            });
+            let lazy = api == "read_record" || api == "records";
+            match res {
+                Err(p) => out.violation(format!("panic:{}", p.sig), format!("whole-file pass ({transport}, {api}) panicked: {}", p.message)),
+                Ok(Err(e)) => out.violation(format!("file-pass:{api}:{}", io_err_class(&e)), format!("{transport} file of {} records, {api}: {e:?}", recs.len())),
+                Ok(Ok(got)) => {
+                    if got.len() != recs.len() {
+                        out.violation(format!("file-pass:{api}:record-count"), format!("{transport}: {} records read, {} written", got.len(), recs.len()));
+                    }
+                    for (i, g) in got.into_iter().enumerate().take(recs.len()) {
+                        match g {
+                            Err(cls) => out.violation(format!("reused-buffer:{api}:accessor-error:{cls}"), format!("{transport}, record #{i}: {}\n{}", lossy(&recs[i].line), neighbour(i))),
+                            Ok(g) => {
+                                let g = canon(g);
+                                let reference = if lazy { &recs[i].fresh } else { &recs[i].exp };
+                                for d in diff_records(reference, &g, &Tol::TEXT) {
+                                    if lazy || !known[i].contains(&colkey(&d)) {
+                                        out.violation(
+                                            format!("reused-buffer:{api}:{}:{}", d.column, d.class),
+                                            format!("{transport} file read through one reader / one reused buffer, record #{i}, {} {}: {} ({} vs read in sequence)\nline: {}\n{}", d.column, d.key, d.detail, if lazy { "fresh eager decode" } else { "description" }, lossy(&recs[i].line), neighbour(i)),
+                                        );
+                                    }
+                                }
+                            }
+                        }
+                    }
+                    out.count(&format!("file_pass_records[{transport}|{api}]"), recs.len() as u64);
+                }
             }
         }
-        let mut rd = vcf::io::Reader::new(&file[..]);
-        rd.read_header()?;
-        let m = rd.records().filter(|r| r.is_ok()).count();
-        Ok((n, m, same))
-    });
-    match r {
-        Err(p) => out.violation(format!("panic:{}", p.sig), format!("whole-file pass panicked: {}", p.message)),
-        Ok(Err(e)) => out.violation(format!("file-pass:header:{}", io_err_class(&e)), format!("{e:?}")),
-        Ok(Ok((n, m, same))) => {
-            out.count("file_pass_records", n as u64);
-            if !same {
-                out.violation("file-pass:record-differs-from-single-line-parse", "a record read in sequence differs from the same line parsed alone");
-            }
-            if m != lines.len() && n == lines.len() {
-                out.violation("file-pass:lazy-count", format!("records() yields {m} records, file has {}", lines.len()));
-            }
+    }
+    out.count("file_pass_records", recs.len() as u64);
+    // adjacency actually exercised
+    let rich = |r: &RecDesc| r.ids.len() >= 2 && r.alts.len() >= 2 && r.qual.is_some() && r.info.len() >= 3;
+    let minimal = |r: &RecDesc| r.ids.is_empty() && r.alts.is_empty() && r.qual.is_none() && r.info.len() <= 1;
+    for w in recs.windows(2) {
+        if rich(&w[0].exp) && minimal(&w[1].exp) {
+            out.count("adjacent_rich_then_minimal", 1);
+        }
+        if minimal(&w[0].exp) && rich(&w[1].exp) {
+            out.count("adjacent_minimal_then_rich", 1);
         }
     }
 }
@@ -724,7 +788,33 @@ fn corpus() -> Vec<(HeaderDesc, Vec<RecDesc>)> {
     let mut r = base.clone();
     r.samples = vec![vec![gt(0, 1, false), Some(Val::Int(3))], vec![None]];
     recs.push(r);
+    // rich / minimal neighbours for the reused-buffer file passes (deterministic)
+    {
+        let mut rng = Rng::new(9, 9, 9);
+        let ro = RecOpts::full();
+        for kind in [0u64, 1, 2, 0] {
+            let rich = gen_rich_record(&mut rng, &h, &ro);
+            recs.push(rich.clone());
+            recs.push(minimal_record(&h, &rich, kind));
+        }
+        recs.push(gen_rich_record(&mut rng, &h, &ro));
+    }
     let mut out = vec![(h.clone(), recs)];
+    // the same without samples: no FORMAT column at all
+    {
+        let mut h0 = h.clone();
+        h0.samples.clear();
+        let mut rng = Rng::new(9, 9, 10);
+        let ro = RecOpts::full();
+        let mut recs0 = Vec::new();
+        for kind in [3u64, 1, 3] {
+            let rich = gen_rich_record(&mut rng, &h0, &ro);
+            recs0.push(rich.clone());
+            recs0.push(minimal_record(&h0, &rich, kind));
+        }
+        recs0.push(gen_rich_record(&mut rng, &h0, &ro));
+        out.push((h0, recs0));
+    }
     // known finding witness: the FORMAT Number values of VCF 4.4/4.5 (P, LA, LR, LG, M)
     let mut h45 = h.clone();
     h45.fileformat = (4, 5);
@@ -759,7 +849,8 @@ fn run_case(c: &Case) -> CaseOut {
             }
         }
         if !lines.is_empty() && header_readable {
-            file_pass(&text, &header, &lines, out);
+            let _ = &header;
+            file_pass(&text, &lines, hd.fileformat, out);
         }
     };
     match c.kind {
@@ -773,7 +864,24 @@ fn run_case(c: &Case) -> CaseOut {
             let ho = HeaderOpts { fileformat: c.fileformat, max_samples: if c.seed % 7 == 0 { 40 } else { 6 }, idx: c.idx, model: c.model, extras: true, min_contig_len: None, v45_numbers: true };
             let hd = gen_header(&mut rng, &ho);
             let ro = RecOpts { model: c.model, nan: true, invalid_ints: false, rare: 14 };
-            let recs: Vec<RecDesc> = (0..c.n).map(|_| gen_record(&mut rng, &hd, &ro)).collect();
+            // every batch carries "rich record, minimal record, rich record" runs (stale state of reused
+            // buffers shows only on such neighbours)
+            let mut recs: Vec<RecDesc> = Vec::new();
+            for i in 0..c.n {
+                let r = match i % 20 {
+                    0 | 2 | 5 => gen_rich_record(&mut rng, &hd, &ro),
+                    1 | 4 => {
+                        let at = gen_record(&mut rng, &hd, &ro);
+                        let mut kind = (i / 20 + i) as u64 % 4;
+                        if kind == 3 && !hd.samples.is_empty() {
+                            kind = 0;
+                        }
+                        minimal_record(&hd, &at, kind)
+                    }
+                    _ => gen_record(&mut rng, &hd, &ro),
+                };
+                recs.push(r);
+            }
             do_records(&hd, &recs, &mut out);
             if c.seed % 5 == 0 {
                 out.sample = Some(json!({"header": to_vcf_header(&hd).lines().take(6).collect::<Vec<_>>(), "first_line": lossy(&to_vcf_line(&recs[0], &hd))}));
@@ -846,6 +954,14 @@ fn main() {
         rep.floor("info Number x Type classes covered", combos as u64, 25);
         let fcombos: usize = genvcf::format_combos(false).iter().map(|(n, t)| format!("format[{}x{}]", n.class(), t.text())).collect::<BTreeSet<_>>().iter().filter(|k| get(k) > 0).count();
         rep.floor("format Number x Type classes covered", fcombos as u64, 24);
+        rep.floor("adjacent_rich_then_minimal", get("adjacent_rich_then_minimal"), recs / 40);
+        rep.floor("adjacent_minimal_then_rich", get("adjacent_minimal_then_rich"), recs / 40);
+        for api in ["read_record_buf", "record_bufs", "read_record", "records"] {
+            for t in ["plain", "bgzf"] {
+                let k = format!("file_pass_records[{t}|{api}]");
+                rep.floor(&k, get(&k), recs * 8 / 10);
+            }
+        }
         for k in ["span_driven_by[END|before-4.5]", "span_driven_by[SVLEN/LEN|from-4.5]", "records_samples[0]", "records_samples[4+]"] {
             rep.floor(k, get(k), 20);
         }
